@@ -321,18 +321,16 @@ parameter; then `xref_payload_undo`, `xref_stream_rt`, `xref_stream_free_gen_exa
 enter this statement: the bytes of object streams and of the cross-reference stream are the
 parameters `raws` / `xrefRaw` of the writer model, and they are returned byte-identically.
 
-MISSING for the full `file_rt_xrefstream` (NOT proved):
-1. the opening sequence on the file: `startxref` → `ReadIndirectObject` on the cross-reference
-   stream object → `checkXRefStreamDict` on the dictionary read back (`/W`, `/Size`, `/Filter`,
-   `/DecodeParms` of `xrefStreamDict`, merged with arbitrary fixed trailer entries) → the data
-   handed to `decodeXRefData`; and that the table encoded by `Close` is the final table minus the
-   cross-reference stream's own entry (needs the additional writer invariant "no stream open ⇒
-   no deferred `Put`s", not part of `Inv`);
-2. the members of object streams: `getObjStm`/`getFromObjStm` on the inflated content
-   (`objstm_rt` gives the index and the member offsets; reading member i as the written object
-   needs C01's round trip with the next member as continuation and `readReferenceTail` refusing
-   `a b R` across the member boundary), with hypothesis `inflate raw = objStmContent …`.
-Both are exercised on a concrete file by the `example` at the end (members 4 and 5 come back). -/
+The two parts missing here are supplied by later modules:
+1. the opening sequence on the file (`startxref` → `ReadIndirectObject` on the cross-reference
+   stream object → `checkXRefStreamDict` on the dictionary read back → `decodeXRefData`) and the
+   fact that the table `Close` encodes is the final table minus the stream's own entry (writer
+   invariant "no stream open ⇒ no deferred `Put`s", `run_na`): `Props/C02fioj.lean`,
+   `close_xrefstream_form`, `open_xrefstream_rt`, and the composed **`file_rt_xrefstream`** — for
+   files without fixed trailer entries (no `/ID`);
+2. the members of object streams: `Props/C02fioi.lean`, `objstm_member_rt`, `get_member_rt`,
+   `file_rt_xrefstream_members` — every member of every `WriteCompressed` of at most
+   `maxObjStmObjects` members reads back as the object written, under `inflate raw = content`. -/
 theorem file_rt_xrefstream_partial (o : WOpts) (s0 s : WState) (ops : List Op)
     (cat : Obj) (info : Option Obj) (tr : List (Bytes × Obj)) (raw : Bytes)
     (henc : o.encrypted = false)
